@@ -169,6 +169,15 @@ func (r *Result) Finish(verifDir, tier string, seed int64, started time.Time, ex
 			newV = append(newV, o)
 		}
 	}
+	if os.Getenv("VERIF_VERBOSE") != "" {
+		for _, o := range r.Obs {
+			v := "ok  "
+			if !o.OK {
+				v = "BAD "
+			}
+			fmt.Printf("  %s %s %s [%s] %s\n", v, o.Rule, o.Construct, o.Pos, o.Detail)
+		}
+	}
 	for _, o := range knownV {
 		k := findings.lookup(r.Property, o.Rule, o.Construct)
 		fmt.Printf("KNOWN-FINDING: property=%s %s %s [%s] — %s\n", r.Property, o.Rule, o.Construct, o.Pos, k.WhatFails)
